@@ -127,6 +127,7 @@ class PathCtx:
     def __init__(self, prefix=(), timeout_ms=10000, stats=None):
         self.timeout_ms = timeout_ms
         self.feas_timeout_ms = 3000
+        self.maybe_infeasible = False  # some feasibility query came back unknown on this path
         self.prefix = list(prefix)
         self.decisions = []  # choices actually taken on this path
         self.alternatives = []  # prefixes that still have to be explored
@@ -312,6 +313,8 @@ class PathCtx:
             self.add(z3.Not(z))
             return False
         rf = self.feasible(z3.Not(z))
+        if rt == z3.unknown or rf == z3.unknown:
+            self.maybe_infeasible = True
         if rf == z3.unsat:
             self.decisions.append(1)
             self.add(z)
@@ -346,7 +349,10 @@ class PathCtx:
             self.decisions.append(k)
             self.add(conds[k])
             return k
-        feas = [k for k, c in enumerate(conds) if self.feasible(c) != z3.unsat]
+        rs = [self.feasible(c) for c in conds]
+        if any(r == z3.unknown for r in rs):
+            self.maybe_infeasible = True
+        feas = [k for k, r in enumerate(rs) if r != z3.unsat]
         if not feas:
             raise PathInfeasible()
         for k in feas[:0:-1]:
@@ -387,6 +393,16 @@ class PathCtx:
         self.decisions.append(("val", vals[0]))
         self.add(z == vals[0])
         return vals[0]
+
+    def confirm_feasible(self):
+        """For a path on which a feasibility query was inconclusive: is the whole path condition
+        satisfiable?  -> sat / unsat / unknown (long timeout, no slicing)."""
+        if not self.maybe_infeasible:
+            return z3.sat
+        r, _m = self._solve(list(self.pc), [])
+        if r == z3.sat:
+            self.maybe_infeasible = False
+        return r
 
     def prove(self, z, timeout_ms=None):
         """Is z valid under the path condition?  -> ('valid'|'refuted'|'unknown', model)"""
